@@ -647,6 +647,12 @@ def check(pid, tier, seed):
                 lines += cl
                 merged = cm
             gl, gm = run_harness(hbin, comp, seed, n, tier, workdir, "gen", shards=shards, extra_env=extra_env)
+            if gm.get("invalid"):
+                # the generator produced histories its own harness refuses to run: a bug of the check (less coverage than
+                # announced), never a statement about the code under test
+                log("WARNING: %d of %d generated %s histories were rejected by the harness's own validation (generator/validator mismatch)"
+                    % (len(gm["invalid"]), n, comp))
+                dist["%s.generated_histories_rejected_by_harness" % comp] = len(gm["invalid"])
             if merged is None:
                 merged = gm
             else:
